@@ -9,6 +9,7 @@
 import FP.Model.Ops
 import FP.Model.Empty
 import FP.Model.Bool
+import FP.Model.Eval
 namespace FP.Props.C07
 open FP FP.Model FP.Gen.FuncTable
 
@@ -55,5 +56,64 @@ theorem aggregates_documented :
 
 example : onEmpty ⟨"power", "impl.Power", 1, 1, false⟩ = some "ok:[]" := by decide +kernel
 example : onEmpty ⟨"count", "impl.Count", 0, 0, false⟩ = some "ok:[I:0]" := by decide +kernel
+
+/-! ### whole expressions (the assembled evaluator, FP.Model.Eval): an empty focus stays empty
+    along every path built from strict steps, whatever the argument expressions are -/
+
+section Expr
+open FP.Model.Eval
+
+def strict0 : List String := ["first", "last", "tail", "distinct", "not", "length", "toChars", "abs", "ceiling", "floor", "truncate"]
+def strict1 : List String := ["where", "select", "skip", "take", "intersect", "exclude", "startsWith", "endsWith", "contains", "indexOf", "substring"]
+def strict2 : List String := ["substring", "replace"]
+
+/-- one step of a path that must hand on an empty focus -/
+inductive StrictStep : E → Prop where
+  | this : StrictStep .this
+  | field (n) : StrictStep (.field n)
+  | typeRoot (n) : StrictStep (.typeRoot n)
+  | fn0 (n) : n ∈ strict0 → StrictStep (.fn n .argNil)
+  | fn1 (n a) : n ∈ strict1 → StrictStep (.fn n (.argCons a .argNil))
+  | fn2 (n a b) : n ∈ strict2 → StrictStep (.fn n (.argCons a (.argCons b .argNil)))
+  | neg (e) : StrictStep e → StrictStep (.neg e)
+  | seq (a b) : StrictStep a → StrictStep b → StrictStep (.seq a b)
+
+/-- EMPTY PROPAGATES THROUGH WHOLE PATHS: every expression built from strict steps — navigation,
+    subsetting, filtering, projection, set, string and math functions with arbitrary argument
+    expressions, polarity — evaluates to empty on an empty input; no argument is even looked at -/
+theorem strict_path_on_empty (env : Env) (e : E) (h : StrictStep e) : eval env e [] = .ok [] := by
+  induction h with
+  | this => rfl
+  | field n => simp [eval]
+  | typeRoot n => rfl
+  | fn0 n hn =>
+    simp only [strict0, List.mem_cons, List.not_mem_nil, or_false] at hn
+    rcases hn with rfl | rfl | rfl | rfl | rfl | rfl | rfl | rfl | rfl | rfl | rfl <;>
+      simp [eval, apply0, firstFn, lastFn, tailFn, distinctFn, distinctAux, notFn, toSingletonBoolean, mapRes, bools,
+        onString, mathOn, Res.bind] <;> rfl
+  | fn1 n a hn =>
+    simp only [strict1, List.mem_cons, List.not_mem_nil, or_false] at hn
+    rcases hn with rfl | rfl | rfl | rfl | rfl | rfl | rfl | rfl | rfl | rfl | rfl <;>
+      simp [eval, apply1, whereFn, selectFn, onString]
+  | fn2 n a b hn =>
+    simp only [strict2, List.mem_cons, List.not_mem_nil, or_false] at hn
+    rcases hn with rfl | rfl <;> simp [eval, apply2, onString]
+  | neg e _ ih => simp [eval, ih, Res.bind, negColl]
+  | seq a b _ _ iha ihb => simp [eval, iha, ihb, Res.bind]
+
+/-- operators on whole expressions: an operand expression that evaluates to empty makes the result
+    empty, whatever the other operand evaluates to (it must only evaluate) -/
+theorem expr_arith_empty (env : Env) (op : ArithOp) (l r : E) (input rv : List Val)
+    (hl : eval env l input = .ok []) (hr : eval env r input = .ok rv) :
+    eval env (.arith op l r) input = .ok [] ∧ eval env (.cmp .lt l r) input = .ok [] ∧
+    eval env (.eq false l r) input = .ok [] := by
+  simp [eval, hl, hr, Res.bind, arithColl, cmpExpr, cmpCore, eqExpr, mapRes, bools]
+
+/-- non-vacuity: a five-step path with arbitrary arguments is strict -/
+example (p q : E) : StrictStep (.seq (.seq (.seq .this (.fn "where" (.argCons p .argNil))) (.fn "first" .argNil))
+    (.seq (.fn "substring" (.argCons q (.argCons p .argNil))) (.neg (.fn "length" .argNil)))) := by
+  repeat (first | constructor | simp [strict0, strict1, strict2])
+
+end Expr
 
 end FP.Props.C07
